@@ -129,6 +129,8 @@ type Failure struct {
 	Reply   string
 	Lines   []string // whole (shrunk) case as sent to the driver
 	Finding string   // id of the known finding class it belongs to, "" if none
+	Source  string   // Lua source of the failing program (program-level checks)
+	Note    string
 }
 
 var driverPath = envOr("GLUADRV", verifRoot()+"/lean/.lake/build/bin/gluadrv")
